@@ -46,6 +46,7 @@ type FuncContract struct {
 	Opaque   bool // never inline even when small
 	CalleeEns map[string][]*Clause // `callee NAME ensures e`: an extra postcondition assumed for calls to NAME made by this function (local refinement of a library summary; listed as an assumption)
 	CalleeAsg map[string][]string  // `callee NAME assigns ghost.x, ...`
+	LitReq   []*LitClause // `literal K requires e`: assumed at the entry of literal $K when it is verified on its own
 	LitEns   []*LitClause // `literal K ensures e`: checked wherever function literal $K of this function returns (r0.. = its results)
 	Guarded  []*GuardClause // `guarded HEAP by e`: every read or write of HEAP by this function needs e (lock discipline)
 	Abstract map[string]bool // callees (unqualified names) whose postconditions are NOT used when verifying this function (keeps heavy spec functions out of its VCs; dropping assumptions is sound)
@@ -521,8 +522,19 @@ func parseContractFile(path, pkgPath string) (*ContractFile, error) {
 				}
 				afterK = m[1] + " " + strings.TrimSpace(afterK[len(m[0]):])
 			}
+			if strings.HasPrefix(afterK, "requires") {
+				// holds whenever the literal starts to run (by definition of the
+				// ghost state it mentions, or by the code that calls it): assumed
+				// where the literal is verified on its own, listed
+				c, err := mk("requires", strings.TrimSpace(strings.TrimPrefix(afterK, "requires")))
+				if err != nil {
+					return nil, err
+				}
+				cur.LitReq = append(cur.LitReq, &LitClause{Lit: strings.TrimPrefix(fs[0], "$"), Clause: c})
+				continue
+			}
 			if !strings.HasPrefix(afterK, "ensures") {
-				return nil, fmt.Errorf("%s:%d: literal K ensures expr", path, rl.line)
+				return nil, fmt.Errorf("%s:%d: literal K ensures|requires expr", path, rl.line)
 			}
 			c, err := mk("ensures", strings.TrimSpace(strings.TrimPrefix(afterK, "ensures")))
 			if err != nil {
